@@ -224,3 +224,75 @@ func VerifC03OptOut() {
 		vh.Assert(e.k.IsOptedIn(e.ctx, cid, types.NewProviderConsAddress(vConsAddr(i))) == f.opted[i], "C03.optout.others-untouched")
 	}
 }
+
+// VerifC03TopNStep (b,d): one epoch step ComputeConsumerNextValSet for a Top-N
+// consumer.  The provider's active set is the first M validators of the staking
+// order; other bonded validators are inactive.  The stored threshold must be the
+// one computed over the ACTIVE validators, every active validator at or above it
+// ends up opted in and in the set, validators below it are in the set only if
+// they had opted in themselves.
+func VerifC03TopNStep() {
+	nv := vh.Bound("vals", 3)
+	cid := "1"
+	e := newVEnv(nv)
+	m := vh.Int64("M")
+	vh.Assume(m >= 1)
+	vh.Assume(m <= int64(nv))
+	e.k.SetParams(e.ctx, vParams(m, 600))
+	vStakingContract(e.st)
+	for i := 0; i < nv; i++ {
+		vh.Assume(e.st.isActive(i)) // all bonded; activity is decided by M
+		// powers are case split over a tiny domain so that the threshold arithmetic folds to
+		// constants (exactness for large totals is VerifC03MinPower's job); N, M, opt-ins stay symbolic
+		e.st.power[i] = int64(vh.ConcretizeInt(int(e.st.power[i]), 1, vh.Bound("maxpower", 3)))
+	}
+	// exclude the known finding F1 (equal power, different tokens)
+	for i := 0; i < nv; i++ {
+		for j := 0; j < nv; j++ {
+			if i != j {
+				vh.Assume(vh.Implies(e.st.power[i] == e.st.power[j], e.st.vals[i].Tokens.Equal(e.st.vals[j].Tokens)))
+			}
+		}
+	}
+	topN := vh.Uint32("topN")
+	vh.Assume(topN >= 50)
+	vh.Assume(topN <= 100)
+	vh.Assert(e.k.SetConsumerPowerShapingParameters(e.ctx, cid, types.PowerShapingParameters{Top_N: topN}) == nil, "C03.step.setup")
+	opted := make([]bool, nv)
+	for i := 0; i < nv; i++ {
+		opted[i] = vh.Bool(vh.Sprintf("opted%d", i))
+		if vh.Guard(opted[i]) {
+			e.k.SetOptedIn(e.ctx, cid, types.NewProviderConsAddress(vConsAddr(i)))
+		}
+		vh.EndGuard()
+	}
+	bonded, _ := e.k.GetLastBondedValidators(e.ctx)
+	active, _ := e.k.GetLastProviderConsensusActiveValidators(e.ctx)
+	want, werr := e.k.ComputeMinPowerInTopN(e.ctx, active, topN)
+	vh.Assume(werr == nil)
+	ord := e.st.order()
+	isActive := make([]bool, nv)
+	for j := 0; j < len(ord) && int64(j) < m; j++ {
+		isActive[ord[j]] = true
+	}
+
+	_, err := e.k.ComputeConsumerNextValSet(e.ctx, bonded, active, cid, nil)
+
+	vh.Reach("after-step")
+	vh.Assert(err == nil, "C03.step.no-error")
+	got, found := e.k.GetMinimumPowerInTopN(e.ctx, cid)
+	vh.Assert(found && got == want, "C03.step.threshold-is-computed-over-the-active-set")
+	set, _ := e.k.GetConsumerValSet(e.ctx, cid)
+	inSet := make([]bool, nv)
+	for _, v := range set {
+		inSet[e.st.idxByCons(v.ProviderConsAddr)] = true
+	}
+	for i := 0; i < nv; i++ {
+		nowOpted := e.k.IsOptedIn(e.ctx, cid, types.NewProviderConsAddress(vConsAddr(i)))
+		forced := vh.And(isActive[i], e.st.power[i] >= want)
+		vh.Assert(vh.Implies(forced, nowOpted), "C03.step.top-validators-automatically-opted-in")
+		vh.Assert(vh.Implies(forced, inSet[i]), "C03.step.top-validators-included")
+		vh.Assert(vh.Implies(vh.And(isActive[i], vh.And(!forced, !opted[i])), !inSet[i]), "C03.step.below-threshold-only-if-opted-in-themselves")
+		vh.Assert(vh.Implies(!forced, nowOpted == opted[i]), "C03.step.no-other-opt-in-created")
+	}
+}
